@@ -12,7 +12,9 @@ func newObjectChecker() objectChecker {
 }
 
 func (objectChecker) Check(nodeLex lexeme.LexEvent) errors.Error {
-	if nodeLex.Type() != lexeme.ObjectEnd {
+	// An object node is checked by the lexeme it begins with (see
+	// schema.Node.BasisLexEventOfSchemaForNode).
+	if nodeLex.Type() != lexeme.ObjectBegin {
 		return lexeme.NewLexEventError(nodeLex, errors.ErrChecker)
 	}
 
